@@ -1015,6 +1015,61 @@ theorem restoreEntity_count (fs : FS) (e : EntityDecl) (pop : Pop)
                 | ints l => cases h
                 | int16zero => cases h
 
+/-- `_restore_entity` takes the positions (and the memberships) from their own files: they are
+    never recomputed from one another -/
+theorem restoreEntity_files (fs : FS) (e : EntityDecl) (pop : Pop) (hg : e.isPerson = false)
+    (h : restoreEntity fs e = .ok pop) :
+    ∃ d, alookup e.key fs.ents = some d ∧
+      readIds d "id.npy" = .ok pop.ids ∧
+      readInts d "members_position.npy" = .ok pop.membersPosition ∧
+      readInts d "members_entity_id.npy" = .ok pop.membersEntityId := by
+  unfold restoreEntity at h
+  cases h1 : alookup e.key fs.ents with
+  | none => rw [h1] at h; cases h
+  | some d =>
+    rw [h1] at h
+    simp only at h
+    refine ⟨d, rfl, ?_⟩
+    cases h2 : readIds d "id.npy" with
+    | error err => rw [h2] at h; cases h
+    | ok ids =>
+      rw [h2] at h
+      simp only [hg, Bool.false_eq_true, if_false] at h
+      cases h3 : readInts d "members_position.npy" with
+      | error err => rw [h3] at h; cases h
+      | ok pos =>
+        rw [h3] at h
+        simp only at h
+        cases h4 : readInts d "members_entity_id.npy" with
+        | error err => rw [h4] at h; cases h
+        | ok mei =>
+          rw [h4] at h
+          simp only at h
+          cases h5 : readNode d "members_role.npy" with
+          | error err => rw [h5] at h; cases h
+          | ok node =>
+            rw [h5] at h
+            simp only at h
+            by_cases hr : e.roles.isEmpty = true
+            · rw [if_pos hr] at h
+              injection h with h; rw [← h]; exact ⟨rfl, rfl, rfl⟩
+            · rw [if_neg hr] at h
+              cases node with
+              | roleKeys ks => simp only at h; injection h with h; rw [← h]; exact ⟨rfl, rfl, rfl⟩
+              | ids l => cases h
+              | ints l => cases h
+              | int16zero => cases h
+
+theorem Pop.Ok.normal_fields {pop : Pop} (hok : pop.Ok) (hg : pop.entity.isPerson = false) :
+    pop.normal.entity = pop.entity ∧ pop.normal.ids = pop.ids ∧ pop.normal.count = pop.count ∧
+    pop.normal.membersEntityId = pop.membersEntityId ∧ pop.normal.membersRole = pop.membersRole ∧
+    pop.normal.membersPosition = pop.membersPosition := by
+  refine ⟨Pop.Ok.normal_entity pop, ?_, hok.normal_count, ?_, ?_, ?_⟩
+  · unfold Pop.normal; simp only [hg, Bool.false_eq_true, if_false]
+  · unfold Pop.normal; simp only [hg, Bool.false_eq_true, if_false]
+  · unfold Pop.normal; simp only [hg, Bool.false_eq_true, if_false]; exact hok.roles_roundtrip
+  · unfold Pop.normal; simp only [hg, Bool.false_eq_true, if_false]
+
 theorem mapE_forall {α β : Type} (f : α → Except String β) (P : β → Prop) (l : List α)
     (bs : List β) (h : mapE f l = .ok bs) (hP : ∀ a b, a ∈ l → f a = .ok b → P b) :
     ∀ b ∈ bs, P b := by
